@@ -75,7 +75,8 @@ def val_str(d: dict | None) -> str:
     return "?" + k
 
 
-OUT_MAP = {"TypeError": "typeError", "AttributeError": "attrError", "UnboundLocalError": "unbound", "timeout": "timeout"}
+OUT_MAP = {"TypeError": "typeError", "AttributeError": "attrError", "UnboundLocalError": "unbound", "timeout": "timeout",
+           "other:ValueError": "exc 0", "other:IndexError": "exc 1", "other:KeyError": "exc 2"}
 
 
 def real_call_str(c: dict) -> tuple[str, list]:
@@ -184,8 +185,11 @@ def oracle(ctx: Ctx, case_name: str, src: str, mypy_res: dict, run_res: dict, py
             t = mypy_res["probes"].get(k)
             if t is None:
                 fails.append({"kind": "probe-in-unchecked-code", "call": call, "probe": k, "value": R_val(v)})
-            elif R.member(v, t) is False:
-                fails.append({"kind": "value-outside-type", "call": call, "probe": k, "value": R_val(v), "type": str(t)})
+            else:
+                # a member of *some* type the checker stored for the expression (a finally body is checked twice)
+                rs = [R.member(v, u) for u in mypy_res.get("probes_all", {}).get(k, [t])]
+                if rs and all(x is False for x in rs):
+                    fails.append({"kind": "value-outside-type", "call": call, "probe": k, "value": R_val(v), "type": str(t)})
         if c["dead_hit"]:
             fails.append({"kind": "unreachable-executed", "call": call, "lines": c["dead_hit"]})
     return fails
@@ -205,7 +209,8 @@ def report_failures(ctx: Ctx, case: Case, model: dict | None, fails: list[dict])
         observed["program"] = case.kind.split(":", 1)[1]
     elif model is not None and model["tc"].startswith("hole"):
         observed["shape"] = {"hole 1": "union-receiver-attribute-assignment", "hole 2": "loop-pass-cap",
-                             "hole 3": "union-isinstance-common-subclass"}.get(model["tc"], model["tc"])
+                             "hole 3": "union-isinstance-common-subclass",
+                             "hole 4": "narrowing-masks-assignment-at-jump"}.get(model["tc"], model["tc"])
     elif "declared-unassigned-attribute" in sh and f["kind"] == "AttributeError":
         m = re.match(r"'(K\d+)' object has no attribute '(a\d+)'", f.get("msg", ""))
         observed["shape"] = "declared-unassigned-attribute"
@@ -224,7 +229,7 @@ def correspond(ctx: Ctx, cases: list[Case], stream: str) -> None:
         ctx.count("traces_validated_against_impl")
         accepted = not my["errors"]
         ctx.dist(f"{stream}:mypy", "accepts" if accepted else "rejects")
-        ctx.dist(f"{stream}:tc", m["tc"].split(" ")[0] + ("" if m["wf"] else "+notWF"))
+        ctx.dist(f"{stream}:tc", (m["tc"] if m["tc"].startswith("hole") else m["tc"].split(" ")[0]) + ("" if m["wf"] else "+notWF"))
         if my.get("crash"):
             raise ToolFailure(f"mypy crashed on generated program {case.name}: {my['crash']}")
         diffs = []
@@ -405,11 +410,47 @@ def known_programs() -> list[Case]:
                 L.Func([], [], I_, ("ret", ("callF", 0, [("new", 3, [])])))])
     p.fill_mro()
     out.append(Case("kMI", p, [(1, [])], "replay:union-isinstance-common-subclass"))
+    # a narrowing captured at `break` hides the assignment before it: the merge after the loop keeps the stale type
+    p = L.Prog([L.Cls([], [], [], [], []), L.Cls([0], [], [], [], [])],
+               [L.Func([I_], [], K(0), L.seq([("ite", ("lt", ("intLit", 0), ("var", 0)), ("ret", ("new", 1, [])), ("pass",)),
+                                               ("ret", ("new", 0, []))])),
+                L.Func([(L.C(0), L.N), I_], [I_], I_, L.seq([
+                    ("decl", 2, ("intLit", 0)),
+                    ("ite", ("isinst", 0, 0), ("ret", ("intLit", 0)),
+                     L.seq([("while", ("lt", ("var", 2), ("var", 1)),
+                             L.seq([("assign", 2, ("add", ("var", 2), ("intLit", 1))),
+                                    ("assign", 0, ("callF", 0, [("var", 2)])),
+                                    ("ite", ("isinst", 0, 1), ("brk",), ("pass",)),
+                                    ("ret", ("intLit", 5))])),
+                            ("ite", ("isNone", 0, True), ("ret", ("add", ("intLit", 1), ("strLit", [115]))), ("pass",))])),
+                    ("ret", ("intLit", 2))]))])
+    p.fill_mro()
+    out.append(Case("kMasked", p, [(1, [("noneLit",), ("intLit", 3)])], "replay:narrowing-masks-assignment-at-jump"))
+    out.append(Case("kMIopt", None, [], "replay:F-C01-3b-optional-isinstance-common-subclass", src=(
+        "from typing import Optional\n"
+        "class A:\n    def __init__(self) -> None:\n        pass\n"
+        "class B:\n    def __init__(self) -> None:\n        pass\n"
+        "class C(A, B):\n    pass\n"
+        "def f(x: Optional[A]) -> int:\n    if isinstance(x, B):\n        return 1 + 's'\n    return 0\n"
+        "def t() -> int:\n    return f(C())\n"), pycalls=["t()"]))
+    out.append(Case("kInterImpossible", None, [], "replay:F-C01-5-intersection-declared-impossible", src=(
+        "class X:\n    pass\nclass Y:\n    pass\nclass Z(X, Y):\n    pass\n"
+        "class A:\n    def m(self) -> X:\n        return X()\n"
+        "class B:\n    def m(self) -> Y:\n        return Y()\n"
+        "class C(A, B):\n    def m(self) -> Z:\n        return Z()\n"
+        "def f(x: A) -> int:\n    if isinstance(x, B):\n        return 1 + 's'\n    return 0\n"
+        "def t() -> int:\n    return f(C())\n"), pycalls=["t()"]))
+    out.append(Case("kRadd", None, [], "replay:F-C01-6-reverse-operator-fallback", src=(
+        "class Meters:\n    def __init__(self, v: int) -> None:\n        self.v = v\n"
+        "    def __add__(self, other: 'Meters') -> 'Meters':\n        return Meters(self.v + other.v)\n"
+        "class Feet:\n    def __init__(self, f: int) -> None:\n        self.f = f\n"
+        "    def __radd__(self, other: Meters) -> Meters:\n        return Meters(other.v + self.f // 3)\n"
+        "def t() -> Meters:\n    return Meters(1) + Feet(3)\n"), pycalls=["t()"]))
     return out
 
 
 EXPECTED_MODEL = {"kF19": (False, "ok"), "kF18": (False, "ok"), "kUnionSet": (True, "hole 1"), "kLoopCap": (True, "hole 2"),
-                  "kMI": (True, "hole 3")}
+                  "kMI": (True, "hole 3"), "kMasked": (True, "hole 4")}
 
 
 def known_stream(ctx: Ctx) -> None:
@@ -463,6 +504,44 @@ def wide_stream(ctx: Ctx, n: int) -> None:
         outside(ctx, cases[i:i + BATCH], "wide")
 
 
+def flow_stream(ctx: Ctx, n: int) -> None:
+    """search only: the flow fuzzer (try/except/finally, or/and over related falsy-capable classes, repeated
+    truthiness tests) with speculative uses — see flow.py"""
+    import re
+    from . import flow
+    fz = flow.Flow(ctx.rng)
+    mods = []
+    for i in range(n):
+        lines, spec, calls = fz.module()
+        mods.append((f"fl{i}", lines, spec, calls))
+    for k, v in sorted(fz.stats.items()):
+        ctx.dist("flow_constructs", k, v)
+    for i in range(0, len(mods), BATCH):
+        chunk = mods[i:i + BATCH]
+        # phase 1: which speculative uses does mypy reject?  (they are reverted to plain probes)
+        res = R.check_batch({name: "\n".join(lines) + "\n" for name, lines, _, _ in chunk})
+        cases = []
+        for name, lines, spec, calls in chunk:
+            if res[name].get("crash"):
+                raise ToolFailure(f"mypy crashed on flow program {name}: {res[name]['crash']}")
+            bad = set()
+            for e in res[name]["errors"]:
+                m = re.match(r"[^:]+:(\d+):", e)
+                if m:
+                    bad.add(int(m.group(1)) - 1)
+            stray = [ln for ln in bad if ln not in spec]
+            if stray:
+                # not one of the planted uses: the generator produced an ill-typed program (a tool defect)
+                raise ToolFailure(f"flow generator produced an ill-typed program {name}: {res[name]['errors'][:3]}")
+            lines = list(lines)
+            for ln in bad:
+                lines[ln] = spec[ln]
+            ctx.dist("flow_speculative_uses", "rejected by mypy (reverted)", len(bad))
+            ctx.dist("flow_speculative_uses", "accepted by mypy (kept)", len(spec) - len(bad))
+            cases.append(Case(name, None, [], "flow", "", src="\n".join(lines) + "\n", pycalls=calls))
+        outside(ctx, cases, "flow")
+
+
 def main(ctx: Ctx) -> None:
     ctx.level = "proof"
     ctx.coverage["rule"] = ("one case = one generated program (distinct by its Lean term / source text) with its argument "
@@ -483,6 +562,7 @@ def main(ctx: Ctx) -> None:
     base = model_stream(ctx, ctx.pick(240, 2000))
     perturb_stream(ctx, base, ctx.pick(200, 2000))
     wide_stream(ctx, ctx.pick(60, 600))
+    flow_stream(ctx, ctx.pick(80, 800))
     if not proved and not ctx.violations:
         ctx.violation("Lean development for C01 no longer builds", {"broken": ctx.broken_ties}, found_input=False)
 
